@@ -1091,6 +1091,10 @@ def auth_corpus():
         out.append(A(D('ghost', ''), via=via))
         out.append(A(D(realm='Other'), via=via))
         out.append(A(D(realm='test'), via=via))
+        # realms that are parts / extensions of the configured one ('Test'), each digested consistently with the right password
+        for near in ('Tes', 'est', 'T', 'e', '', 'Test ', ' Test', 'Test2', 'TestTest', 'TEST'):
+            out.append(A(D(realm=near), via=via))
+            out.append(A(D(realm=near, qop=None), via=via))
         out.append(A(D(method='POST'), via=via))
         out.append(A(D(), via=via, method='DELETE'))
         for t in ('flip', 'append', 'prepend', 'truncate', 'empty', 'onechar', 'reverse'):
@@ -1329,7 +1333,9 @@ def gen_auth(rng):
     if rng.random() < 0.3:
         h['algorithm'] = rng.choice(['MD5', 'MD5', 'MD5-sess', 'SHA1', 'junk', 'md5'])
     if rng.random() < 0.2:
-        h['realm'] = rng.choice([x for x in REALMS if x != realm])
+        # another realm altogether, or one that only differs a little: a part of the configured one, an extension of it, another case, empty
+        near = [realm[:-1], realm[1:], realm[:1], realm[len(realm) // 2:], '', realm + ' ', ' ' + realm, realm + '2', realm.upper(), realm.swapcase(), realm * 2]
+        h['realm'] = rng.choice([x for x in REALMS if x != realm] + [x for x in near if x != realm])
     if rng.random() < 0.12:
         h['method'] = rng.choice([x for x in METHODS if x != method])
     if rng.random() < 0.08:
